@@ -27,8 +27,35 @@ nlargest, rolling / cumulative / shift / diff / ffill / bfill, repartition (npar
 sample / loc / partitions / dropna / map_partitions, Index-valued programs, and astype / categorize programs (dict,
 series and frame targets incl. category, nullable and str dtypes).
 
-A dask exception while building or computing a program is NOT a C42 matter (the owning property C36-C40/C46 reports
-it): such cases are skipped as ``unsupported`` and counted (``dask_raised_owned_by_other_property``).
+(c) CONSUMER programs (``vf.gen.c42_programs`` classes ``indexcol``, ``pushdown``, ``select-after``): an operation
+followed by a consumer, so that the optimizer's ``_simplify_up`` / ``_simplify_down`` rules fire with the operation as
+the PARENT's child - a single reader and siblings.  ``indexcol``: the index <-> column moves ``reset_index(drop=)`` of
+Series and frames, ``set_index(col, drop=)``, ``rename_axis``, ``index.to_series()``, ``index.to_frame(name=)``,
+``to_frame(name=)``, ``Series.rename(name)``, ``squeeze``, ``Series.add_prefix / add_suffix`` (1-3 moves, optionally a
+filter / projection in between) on a frame whose index is int / datetime / str / categorical, unnamed / named / named like
+a column ("a", "c") / literally named "index", sorted unique / with duplicates / unsorted, optionally with a COLUMN called
+"index" (the new column is then "level_0"); ``Series.reset_index(name=)`` and ``reset_index(level=)`` do not exist in dask
+(``rename(name).reset_index()`` is generated instead).  ``pushdown``: one frame operation of ``_expr.py`` that the older
+classes only produce as the last step (add_prefix / add_suffix, drop, explode, combine_first, rename, columns setter, copy,
+dropna, abs, round, isna, notnull, replace, neg, invert, fillna, ffill, bfill, diff, shift, head / tail of an elementwise
+expression, nested scalar multiplication, map_partitions(required_columns=), rename_axis, to_frame, index.to_frame /
+to_series, sample, partitions, repartition, clear_divisions, cumsum, loc[:, cols]).  ``select-after``: a program of the
+classes merge / concat / shuffle / window / repartition / astype / groupby-agg / reduction followed by a consumer.
+Consumers: ``[col]``, ``[[cols]]`` (subset, frame order / reversed / as drawn), arithmetic on one column, on two sibling
+columns, ``R[pred(R[c])]`` with and without a following selection, ``R[c][pred(R[c2])]``, ``assign(z=f(R[c]))`` with and
+without selection, ``.index`` (of the frame, of a selection, of a filter), ``count`` / column reductions,
+``reset_index()[col]``; for ``indexcol`` they prefer the column made from the index ("index", "level_0", the index name,
+the ``to_frame(name=)``).  For these classes the VALUES are compared too: indexcol / pushdown against pandas running the
+same program (``vf.gen.frames.compare``; rows as a multiset after set_index / an index shuffle, the index not compared once
+reset_index made it a numbering per partition, dtypes left to the meta monitor), select-after against pandas applying the
+same consumer to the COMPUTED result of the program without its consumer (row multisets) - the consumer must not change
+what the program yields.
+
+A dask exception while building or computing a program of (a) / (b) is NOT a C42 matter (the owning property C36-C40/C46
+reports it): such cases are skipped as ``unsupported`` and counted (``dask_raised_owned_by_other_property``).  No other
+property runs the consumer programs (c): there a dask exception IS reported (``...:raises:<ExcType>``) when pandas accepts
+the program and the program WITHOUT its consumer computes, agrees with its meta and has pandas' kind and columns
+(otherwise the failure is the inner operation's: skipped and counted as above).
 
 Labels: ``<operation class>:<form>:<facet>`` e.g. ``groupby-agg:dict-spec:frame:meta-dtype``; for C36 pipelines the
 class is ``c36:<family of the last step of the shortest prefix that shows the facet>``.  Facets: meta-kind,
@@ -40,8 +67,34 @@ pandas' value-dependent upcast: int -> float when a NaN, a float replacement or 
 class only (``merge:meta-dtype(value-dependent)``, ``c36-elementwise:...``); the suffix ``@partition`` marks
 disagreements visible only in separately computed partitions.
 
+Consumer labels: a disagreement the program WITHOUT its consumer already shows is labelled by the inner operation
+(select-after: exactly as class (b) labels it; pushdown: ``pushdown:<op>:<facet>``; indexcol: the first move after which
+the meta disagrees, ``indexcol:<series|frame>.<move>:<index naming>:<facet>``).  What only the consumer shows is labelled
+``<head>:<facet>`` / ``<head>:vs-pandas:<kind>`` / ``<head>:vs-unconsumed:<kind>`` / ``<head>:raises:<ExcType>`` with head =
+``indexcol:<structural features>><consumer family>[(index-column)]:<index naming>`` (features: series.reset_index /
+frame.reset_index[(drop)], level_0, unnamed-series, set_index, index-read, relabel, to_frame, filter / filters>=2),
+``pushdown:<op>><family>``, ``select-after:<class>:<form>><family>``, except for mechanisms recognised by a predicate:
+``<class>:series.reset_index>getcol:<values | values-of-unnamed-series | level-of-multiindex | index-column-called-index |
+index-column-called-level_0 | index-column-called-like-the-index>`` (a Series.reset_index() read by ONE column selection:
+the Series branch of ResetIndex._simplify_up), ``indexcol:reset_index+filter`` / ``+filters>=2`` (filters above a
+reset_index), ``indexcol:reset_index:new-column-called-level_0:raises:KeyError``,
+``select-after:window:rolling:frame>column-selection``, ``select-after:groupby-agg:column-list-selection>consumer``.  A
+computed Series with another NAME than the meta is facet ``meta-name`` whatever the dtypes are.
+
 Calibration (unchanged tree)
 ----------------------------
+* consumer classes, false alarms corrected: ``set_index(col)`` on the name the index already has is a documented no-op in
+  dask (not generated); an Index inside ``[]`` is a list of column labels in dask (the index is read through
+  ``index.to_series()``); a merge on columns defines no index and reset_index numbers every partition from 0 (index not
+  compared there); ``series[label]`` is a scalar only in pandas (select-after does not compare it); combine_first on
+  duplicate index labels pairs every duplicate with every duplicate in pandas (unique indexes only); a consumer of a
+  ``sort_values`` / ``set_index`` result that reads it twice gets two differently projected sorts whose ties may be ordered
+  differently (run-to-run different, seen once as ``sorted[sorted.a > 1].index`` pairing the index of one sort with the mask
+  of the other): only single-reader consumers are generated there; dynamic consumers treat every non-numeric column alike
+  (isna / notnull), because after an outer merge a bool column holds NaN whatever the meta says; two-level and repeated
+  column labels are not consumed and a column is never requested twice (dask cannot concatenate such partitions when a
+  categorical or an overlap is involved); ``map_partitions(required_columns=)`` is generated with ``meta=`` (without it the
+  rule fails on ``self.meta[...]``: TypeError - reported to the lead, not a meta matter).
 * user functions (C36 map / apply) get a COMPLETE meta (empty pandas Series carrying the input's index): the documented
   ``(name, dtype)`` tuple cannot describe the index, so an index-name disagreement would be the user's meta, not dask's.
 * ``DataFrame.pct_change`` does not exist in dask and is not generated; rolling programs require known divisions
@@ -56,7 +109,10 @@ import warnings
 PROP = "C42"
 RULE = ("cases = (source, operation class, case seed); source c36 = a random C36 pipeline (2-5 row-wise/elementwise "
         "operations), source ops = one program of the forced class (reduction, groupby-agg, merge, concat, shuffle, window, "
-        "repartition, index, astype) with random parameters; the seed also determines the frame (0-40 rows, 9 typed columns, 7 "
+        "repartition, index, astype; consumer classes indexcol = 1-3 index<->column moves on an int/datetime/str/categorical, "
+        "unnamed/named/column-named index + a consumer, pushdown = one _expr.py frame operation + a consumer, select-after = a "
+        "program of the older classes + a consumer; consumer = column selection(s), sibling arithmetic, filter, assign, .index, "
+        "reduction) with random parameters; the seed also determines the frame (0-40 rows, 9 typed columns, 7 "
         "index kinds) and the partitioning (from_pandas npartitions|chunksize, from_map/from_delayed slices incl. empty "
         "partitions, cleared divisions); every case computes the whole result and every partition separately; "
         "non-trivial = result collection has >= 2 partitions or is a scalar of a >= 2-partition input; distinct = distinct "
@@ -81,10 +137,12 @@ FLOORS = {
                  "sets": {"program_forms": 2000}, "max_skipped_fraction": 0.35},
 }
 EXHAUSTIVE_SPACE = None
-CLAIM = ("For every generated program (C36 pipelines and compact reduction / groupby / merge / concat / shuffle / window / "
-         "repartition / index programs) the computed result and every separately computed partition were compared with "
+CLAIM = ("For every generated program (C36 pipelines, compact reduction / groupby / merge / concat / shuffle / window / "
+         "repartition / index programs, and index<->column moves, _expr.py frame operations and the compact programs followed by "
+         "a consumer) the computed result and every separately computed partition were compared with "
          "the lazy ._meta (kind, columns and order, dtypes, names, index name and dtype) and with the public views of the "
-         "meta. Held means: no disagreement among the executions observed (beyond the PENDING mechanisms listed).")
+         "meta; the values of the consumer programs with pandas. Held means: no disagreement among the executions observed "
+         "(beyond the PENDING mechanisms listed).")
 LEVEL_NOTE = "trusts vf.gen.frames.meta_violation and pandas dtype reporting; Arrow-backed strings are not exercised"
 TECHNIQUE = "runtime monitoring: cross-cutting meta monitor (lazy ._meta vs computed result and each computed partition)"
 CASE_TIMEOUT = 90
@@ -106,6 +164,21 @@ PENDING = {
     'c36:other:assign:meta-dtype':
         'assign of a differently partitioned series adds all-NaN rows, upcasting existing columns; the meta does not say so',
 }
+
+def _known_consumer_labels():
+    """the consumer-class labels listed in /verif/known_findings.d/C42.json (key -> what)"""
+    import json
+    import os
+
+    try:
+        with open(os.path.join(os.path.dirname(os.path.dirname(os.path.dirname(os.path.abspath(__file__)))),
+                               "known_findings.d", "C42.json")) as f:
+            return {e["key"]: e["what"][:150] for e in json.load(f)["findings"] if e["key"] not in PENDING}
+    except Exception:  # noqa: BLE001
+        return {}
+
+
+PENDING.update(_known_consumer_labels())
 
 OPS_CLASSES = ("reduction", "groupby-agg", "merge", "concat", "shuffle", "window", "repartition", "index", "astype")
 # classes whose programs end with a CONSUMER (column selection / filter / arithmetic / assign / index) of the operation
@@ -267,13 +340,25 @@ def observe(res):
     return val, parts
 
 
+def _name_first(res, val, m):
+    """a computed Series that has another NAME than the meta (and another dtype) is another column: one facet ``meta-name``
+    whatever the two dtypes are (meta_violation looks at the dtype first)"""
+    import pandas as pd
+
+    meta = getattr(res, "_meta", None)
+    if m[0] == "meta-dtype" and isinstance(meta, pd.Series) and isinstance(val, pd.Series) and meta.name != val.name and \
+            not (pd.isna(meta.name) and pd.isna(val.name)):
+        return "meta-name", "result: meta name %r, computed %r (%s)" % (meta.name, val.name, m[1])
+    return None
+
+
 def check(res, val, parts, empty_ref=None, full_ref=None):
     """-> (facet, message) | None"""
     from vf.gen import frames as F
 
     m = F.meta_violation(res, val, parts=())
     if m is not None:
-        return facet_of(m, empty_ref, full_ref, val, parts), m[1]
+        return _name_first(res, val, m) or (facet_of(m, empty_ref, full_ref, val, parts), m[1])
     if parts:
         m = F.meta_violation(res, val, parts=parts)
         if m is not None:
@@ -319,17 +404,105 @@ def mechanism_label(case, desc, klass, facet, prefix):
             return "c36:str:split-expand:meta-columns"
     elif desc["class"] == "window" and desc.get("op") == "cum" and facet.startswith("meta-dtype(int64->float64)"):
         return "window:cumulative-int:meta-dtype(int64->float64)"
+    elif klass.startswith(("indexcol:series.add_prefix:", "indexcol:series.add_suffix:")) and facet.startswith("meta-index-name"):
+        return "indexcol:series.add_prefix/add_suffix:named-index:meta-index-name"
+    elif klass.startswith("pushdown:combine_first") and facet == "meta-columns@partition":
+        return "pushdown:combine_first:empty-partition:meta-columns@partition"
     return "%s:%s" % (klass, facet)
 
 
 CONSUMER_CLASSES = ("indexcol", "pushdown", "select-after")
 
 
-def raises_label(desc, tail, exc, site):
-    """label of a dask exception in a consumer-class program whose inner program computes"""
+def same_structure(a, b):
+    """kind, column labels and order (Series: name) of two pandas objects"""
+    import pandas as pd
+
+    if isinstance(a, pd.DataFrame) or isinstance(b, pd.DataFrame):
+        return isinstance(a, pd.DataFrame) and isinstance(b, pd.DataFrame) and list(a.columns) == list(b.columns)
+    if isinstance(a, pd.Series) or isinstance(b, pd.Series):
+        return isinstance(a, pd.Series) and isinstance(b, pd.Series) and (a.name == b.name or (pd.isna(a.name) and pd.isna(b.name)))
+    return isinstance(a, pd.Index) == isinstance(b, pd.Index)
+
+
+def consumer_klass(desc, tail, inner_ref):
+    """label head of what only the program WITH its consumer shows; mechanisms recognised by an explicit predicate first
+    (one mechanism = one head): * a Series.reset_index() read by a single column selection (the Series branch of
+    ResetIndex._simplify_up rewrites it to reset_index(drop=True)): which column is read - the values (of a series without a
+    name: column 0), a level of a MultiIndex, the column "index" / "level_0" / <name of the index>; * a column selection after
+    a rolling aggregation of a frame."""
+    import pandas as pd
+
     from vf.gen import c42_programs as Q
 
-    return "%s:raises:%s" % (Q.consumer_head(desc, tail), site)
+    t = tail or desc["tail"]
+    fam = Q.TAIL_FAMILY[t["op"]]
+    if fam == "reset-getcol" and isinstance(inner_ref, pd.Series):
+        try:
+            cols = list(inner_ref.reset_index().columns)
+            col = cols[int(t["pick"] * len(cols)) % len(cols)]
+            if col == cols[-1]:
+                which = "values-of-unnamed-series" if inner_ref.name is None else "values"
+            elif inner_ref.index.nlevels > 1:
+                which = "level-of-multiindex"
+            else:
+                which = "index-column-called-%s" % (col if col in ("index", "level_0") else "like-the-index")
+            return "%s:series.reset_index>getcol:%s" % (desc["class"], which)
+        except Exception:  # noqa: BLE001
+            pass
+    if desc["class"] == "select-after":
+        inner = desc["inner"]
+        if inner["class"] == "window" and inner.get("op") == "rolling" and inner.get("target") == "frame":
+            return "select-after:window:rolling:frame>column-selection"
+    if desc["class"] == "indexcol":
+        moves = list(desc["moves"])
+        while moves and moves[-1]["op"] in ("rename_axis", "squeeze"):     # (rename the new index / leave two columns as they are)
+            moves.pop()
+        last = moves[-1] if moves else {}
+        if fam == "getcol" and last.get("op") == "reset_index" and last.get("on") == "series" and not last["drop"]:
+            col = t.get("col")
+            if col == last["new"]:
+                which = "index-column-called-%s" % (col if col in ("index", "level_0") else "like-the-index")
+            else:
+                which = "values-of-unnamed-series" if last.get("unnamed_series") else "values"
+            return "indexcol:series.reset_index>getcol:%s" % which
+        feats = Q.indexcol_features(desc, t)
+        nf = [f for f in feats if f.startswith("filter")]
+        if nf and any("reset_index" in f for f in feats):
+            # a filter (two filters) above reset_index: pushed below it while a predicate still reads the new index
+            return "indexcol:reset_index+%s" % nf[0]
+    return Q.consumer_head(desc, t)
+
+
+def raises_label(desc, tail, exc, site):
+    """label of a dask exception in a consumer-class program whose inner program computes: the structural features of the
+    program and the exception TYPE (the innermost dask frame depends on the scheduler path, so it is not part of the label)"""
+    from vf.gen import c42_programs as Q
+
+    et = type(exc).__name__
+    k = desc["class"]
+    t = tail or desc["tail"]
+    if k == "indexcol":
+        feats = Q.indexcol_features(desc, t)
+        reset = any("reset_index" in f for f in feats)
+        if reset and "level_0" in feats and et == "KeyError":
+            # the column made from the index is "level_0" only while the frame has a column "index"
+            return "indexcol:reset_index:new-column-called-level_0:raises:KeyError"
+        nf = [f for f in feats if f.startswith("filter")]
+        if reset and nf:
+            # a filter (two filters) above reset_index: pushed below it while a predicate still reads the new index; with
+            # ``relabel`` (add_prefix / add_suffix) or ``index-read`` (index.to_series / to_frame) below the reset_index the
+            # filter goes on below an operation that builds or relabels the index it reads
+            extra = "".join(f + "+" for f in ("relabel", "index-read") if f in feats)
+            return "indexcol:%sreset_index+%s:raises:%s" % (extra, nf[0], et)
+        return "indexcol:%s:raises:%s" % ("+".join(feats), et)
+    if k == "select-after":
+        inner = desc["inner"]
+        if inner["class"] == "groupby-agg" and inner.get("sel") == "cols":
+            # df.groupby(key)[[c1, c2]].agg()[...]: the selection is pushed into the frame, the column list of the groupby stays
+            return "select-after:groupby-agg:column-list-selection>consumer:raises:%s" % et
+        return "select-after:%s:%s>%s:raises:%s" % (inner["class"], inner["form"], Q.TAIL_FAMILY[t["op"]], et)
+    return "%s:raises:%s" % (Q.consumer_head(desc, t), et)
 _RESET_TAILS = ("reset-getcol", "reset-getcols", "s-reset-getcol")
 
 
@@ -354,6 +527,12 @@ def count_consumer_program(ctx, desc, res, c):
             ctx.count("consumer_reads_former_index_column")
         if "col" in desc["start"] and desc["moves"] and desc["moves"][0]["op"] == "reset_index" and not desc["moves"][0]["drop"]:
             ctx.count("series_reset_index_then_consumer")
+        head = consumer_klass(desc, desc["tail"], None)
+        if head.startswith("indexcol:series.reset_index>getcol:"):
+            # the Series branch of ResetIndex._simplify_up: ONE column selection reads series.reset_index()
+            ctx.count("series_reset_index_single_getcol:" + ("index-column" if "index-column" in head else "values"))
+            if head.endswith("index-column-called-index"):
+                ctx.count("series_reset_index_single_getcol_of_column_index")
     elif k == "pushdown":
         ctx.count("pushdown:" + desc["op"])
         ctx.distinct("pushdown_ops", desc["op"])
@@ -368,7 +547,7 @@ def count_consumer_program(ctx, desc, res, c):
 
 
 def values_violation(desc, c, run, val, full_ref, ctx):
-    """-> (how, (kind, message), resolved tail) | None.  indexcol / pushdown: the computed value against pandas running the
+    """-> (how, (kind, message), resolved tail, inner reference) | None.  indexcol / pushdown: the computed value against pandas running the
     same program (row order not compared after set_index / an index shuffle, the index not compared once reset_index made
     it partition-local; dtypes are the meta monitor's business).  select-after: against pandas applying the same consumer
     to the COMPUTED inner result (row multisets) - the consumer must not change what the inner program yields."""
@@ -382,27 +561,32 @@ def values_violation(desc, c, run, val, full_ref, ctx):
     if k == "indexcol":
         ctx.count("values_compared_with_pandas")
         m = F.compare(val, full_ref, ordered=not desc["unordered"], check_dtype=False, check_index=not desc["local"])
-        return ("vs-pandas", m, desc["tail"]) if m else None
+        return ("vs-pandas", m, desc["tail"], None) if m else None
     if k == "pushdown":
         try:
-            tt = Q.resolve_tail(desc["tail"], run(pdf, False, c["opdf"], upto="inner"))
+            inner_ref = run(pdf, False, c["opdf"], upto="inner")
+            tt = Q.resolve_tail(desc["tail"], inner_ref)
         except Exception:  # noqa: BLE001
             return None
         ctx.count("values_compared_with_pandas")
         m = F.compare(val, full_ref, ordered=not desc.get("unordered"), check_dtype=False, check_index=tt["op"] not in _RESET_TAILS)
-        return ("vs-pandas", m, tt) if m else None
+        return ("vs-pandas", m, tt, inner_ref) if m else None
     try:
         vi = run(ddf, True, c["oddf"], upto="inner").compute(scheduler="sync")
         tt = Q.resolve_tail(desc["tail"], vi)
         exp = Q.apply_tail(tt, vi, False)
     except Exception:  # noqa: BLE001
         return None
+    if tt["op"] == "s-label":
+        return None       # series[label]: a scalar in pandas, a one-row selection in dask unless the labels are known statically
     ctx.count("values_compared_with_unconsumed_result")
     inner = desc["inner"]
     # (a merge on columns defines no index: dask numbers the rows of every output partition)
-    keep_index = tt["op"] not in _RESET_TAILS and not (inner["class"] == "merge" and inner["on"] != "index")
+    # (... and after reset_index the index is a numbering per partition: documented)
+    keep_index = tt["op"] not in _RESET_TAILS and not (inner["class"] == "merge" and inner["on"] != "index") and \
+        not (inner["class"] == "shuffle" and inner.get("op") == "reset_index")
     m = F.compare(val, exp, ordered=False, check_dtype=False, check_index=keep_index)
-    return ("vs-unconsumed", m, tt) if m else None
+    return ("vs-unconsumed", m, tt, vi) if m else None
 
 
 def run_case(case, ctx):
@@ -436,6 +620,8 @@ def run_case(case, ctx):
         ctx.sig = [text, c["kind"], c["pdesc"], c.get("odesc"), len(pdf), case["cs"] if len(pdf) else 0]
         if desc.get("need_known") and not ddf.known_divisions:
             return ctx.reject("program needs known divisions (documented)")
+        if desc.get("need_unique") and not (pdf.index.is_unique and c["opdf"].index.is_unique):
+            return ctx.reject("aligning operation on duplicate index labels (pandas pairs every duplicate with every duplicate)")
         try:
             full_ref = run(pdf, False, c["opdf"])
         except CaseTimeout:
@@ -461,8 +647,11 @@ def run_case(case, ctx):
                 with warnings.catch_warnings():
                     warnings.simplefilter("ignore")
                     try:
-                        observe(run(ddf, True, c["oddf"], upto="inner"))
-                        inner_ok = True
+                        r2 = run(ddf, True, c["oddf"], upto="inner")
+                        v2, p2 = observe(r2)
+                        # (a wrong inner meta is found by the programs that compute; an inner result whose kind / columns
+                        # differ from pandas - e.g. the known concat(join=) defect of C39 - is the owning property's)
+                        inner_ok = check(r2, v2, p2) is None and same_structure(v2, run(pdf, False, c["opdf"], upto="inner"))
                     except CaseTimeout:
                         raise
                     except Exception:  # noqa: BLE001
@@ -522,7 +711,7 @@ def run_case(case, ctx):
         if vm is not None:
             how, (vk, vmsg) = vm[0], vm[1]
             detail["tail"] = vm[2]
-            return ctx.violation("%s:%s:%s" % (Q.consumer_head(desc, vm[2]), how, vk), vmsg, **detail)
+            return ctx.violation("%s:%s:%s" % (consumer_klass(desc, vm[2], vm[3]), how, vk), vmsg, **detail)
     if m is None:
         ctx.sample = {"program": text[:500], "index": c["kind"], "partitioning": c["pdesc"], "result_kind": type(val).__name__,
                       "result_npartitions": nparts, "meta": repr(getattr(res, "_meta", None))[:200]}
@@ -582,10 +771,11 @@ def run_case(case, ctx):
                 detail["shortest_prefix"] = desc["moves"][:k]
         else:
             try:
-                detail["tail"] = Q.resolve_tail(desc["tail"], run(pdf, False, c["opdf"], upto="inner"))
+                inner_ref = run(pdf, False, c["opdf"], upto="inner")
+                detail["tail"] = Q.resolve_tail(desc["tail"], inner_ref)
             except Exception:  # noqa: BLE001
-                detail["tail"] = None
-            klass = Q.consumer_head(desc, detail["tail"])
+                inner_ref, detail["tail"] = None, None
+            klass = consumer_klass(desc, detail["tail"], inner_ref)
     if case["src"] == "c36":
         # the SHORTEST prefix of the pipeline whose meta already disagrees names the operation class and the facet
         # (later steps only inherit the disagreement, possibly under another facet)
